@@ -183,6 +183,19 @@ func registerMoreStubs(it *Interp) {
 			for c, u := range divs {
 				it.fpDiv[v][c] = it.St.SDiv(d, it.c64(u))
 			}
+			// the rest of the contract (asserted only when the float is used for more than
+			// its integer part - fpForce): q <= v < q+1, and v >= q+0.5 exactly when the
+			// remainder is at least half a unit (mirrored for negative durations)
+			st := it.St
+			q, r := it.fpInt[v], st.SRem(d, it.c64(unit))
+			fq := st.IntToF(q, true)
+			pos := st.And(st.And(st.fcmp(OFLe, fq, v), st.fcmp(OFLt, v, st.IntToF(st.Add(q, it.c64(1)), true))),
+				st.Eq(st.fcmp(OFLe, st.fbin(OFAdd, fq, st.FConst(fbitsOf(0.5))), v), st.Sle(it.c64(unit), st.Mul(r, it.c64(2)))))
+			neg := st.And(st.fcmp(OFLt, st.IntToF(st.Sub(q, it.c64(1)), true), v), st.fcmp(OFLe, v, fq))
+			if it.fpLazy == nil {
+				it.fpLazy = map[*Term]*Term{}
+			}
+			it.fpLazy[v] = st.Ite(st.Sle(it.c64(0), d), pos, neg)
 			return v
 		}
 	}
@@ -210,9 +223,48 @@ func registerMoreStubs(it *Interp) {
 		}
 		return it.callBody(fr, it.pkgFunc(gsmPkg, "IsValidGSM7String"), a, nil, cc)
 	}
+	// sort.Slice / sort.SliceStable: insertion sort over the real less closure - what the
+	// runtime does itself for up to 12 elements (longer slices: not encodable)
+	sortSlice := func(it *Interp, fr *frame, cc *ssa.CallCommon, a []Value) Value {
+		ifc, ok := a[0].(*Iface)
+		if !ok || ifc.T == nil {
+			it.throw("reflect: call of Swapper on zero Value")
+		}
+		sl, ok := ifc.V.(*Slice)
+		if !ok {
+			panic(pathEnd{"notenc", "sort.Slice on a non-slice"})
+		}
+		less := a[1].(*Func)
+		n := int(it.concretize(sl.Len))
+		if n > 12 {
+			panic(pathEnd{"notenc", "sort.Slice over more than 12 elements"})
+		}
+		if n < 2 {
+			return nil
+		}
+		off := int(it.concretize(sl.Off))
+		for i := 1; i < n; i++ {
+			for j := i; j > 0; j-- {
+				r := it.callValue(fr, less, []Value{it.c64(int64(j)), it.c64(int64(j - 1))}, nil).(*Term)
+				if !it.branchOrConst(r) {
+					break
+				}
+				for c := 0; c < sl.ECells; c++ {
+					x, y := off+j*sl.ECells+c, off+(j-1)*sl.ECells+c
+					vx, vy := sl.Obj.Cells[x], sl.Obj.Cells[y]
+					it.setCell(sl.Obj, x, vy)
+					it.setCell(sl.Obj, y, vx)
+				}
+			}
+		}
+		return nil
+	}
+	s["sort.Slice"] = sortSlice
+	s["sort.SliceStable"] = sortSlice
 	// IEEE bit pattern of a float64 and back (math.Round, math.Trunc, ... are written with them)
 	s["math.Float64bits"] = func(it *Interp, fr *frame, cc *ssa.CallCommon, a []Value) Value {
 		x := a[0].(*Term)
+		it.fpForce(x)
 		if x.IsConst() {
 			return it.St.Const(64, x.Val)
 		}
@@ -289,6 +341,15 @@ func registerMoreStubs(it *Interp) {
 
 func fbitsOf(f float64) uint64 { return fbits(f) }
 
+// fpForce asserts the pending contract clauses of an abstract float (vFPContracts) the first
+// time it is used for anything but its integer part.
+func (it *Interp) fpForce(x *Term) {
+	if c, ok := it.fpLazy[x]; ok {
+		delete(it.fpLazy, x)
+		it.pushPC(c)
+	}
+}
+
 // symDuration: the symbolic duration handed out by the ParseDuration stub:
 // (+/-) (dursecs * 1e9 + durfrac) with dursecs a 32-bit second count and durfrac < 1e9;
 // the sign is the job parameter durneg. The harness builds the same value natively.
@@ -299,6 +360,9 @@ func (it *Interp) symDuration() *Term {
 	fr := it.symVar("durfrac", 32)
 	if k, ok := it.known[fr]; ok {
 		fr = k
+	}
+	if !fr.IsConst() {
+		fr = st.URem(fr, st.Const(32, 1000000000))
 	}
 	d = st.Add(d, st.Zext(fr, 64))
 	if it.Params["durneg"] == 1 {
